@@ -499,3 +499,125 @@ func ZeroValue(c hist.Column, loc *time.Location) (hist.Value, bool) {
 	}
 	return hist.Value{}, false
 }
+
+// OptionalMetadata builds the well-formed optional metadata a MySQL 8.0 master
+// (binlog_row_metadata=FULL) appends to the table map of t: signedness of the
+// numeric columns, column names, the value lists of SET and ENUM columns, the
+// column charsets and the primary key. Fields are type (1 byte), length
+// (length-encoded), value.
+func OptionalMetadata(r *core.Rng, t *hist.Table) []byte {
+	var out []byte
+	tlv := func(typ byte, v []byte) {
+		out = append(out, typ)
+		out = append(out, ev.Lenenc(uint64(len(v)))...)
+		out = append(out, v...)
+	}
+	isNumeric := func(c hist.Column) bool {
+		switch c.Type {
+		case ev.TTiny, ev.TShort, ev.TInt24, ev.TLong, ev.TLongLong, ev.TFloat, ev.TDouble, ev.TNewDecimal, ev.TYear:
+			return true
+		}
+		return false
+	}
+	realType := func(c hist.Column) byte {
+		if c.Type == ev.TString && (byte(c.Meta>>8) == ev.TEnum || byte(c.Meta>>8) == ev.TSet) {
+			return byte(c.Meta >> 8)
+		}
+		return c.Type
+	}
+	// SIGNEDNESS (1): one bit per numeric column, most significant bit first
+	var bits []bool
+	for _, c := range t.Cols {
+		if isNumeric(c) {
+			bits = append(bits, c.Unsigned)
+		}
+	}
+	if len(bits) > 0 {
+		b := make([]byte, (len(bits)+7)/8)
+		for i, u := range bits {
+			if u {
+				b[i/8] |= 0x80 >> uint(i%8)
+			}
+		}
+		tlv(1, b)
+	}
+	// DEFAULT_CHARSET (2): default collation, then (column index, collation) exceptions
+	nchar := 0
+	for _, c := range t.Cols {
+		switch realType(c) {
+		case ev.TVarchar, ev.TVarString, ev.TString, ev.TBlob, ev.TTinyBlob, ev.TMediumBlob, ev.TLongBlob:
+			nchar++
+		}
+	}
+	if nchar > 0 {
+		v := ev.Lenenc(uint64([]int{33, 45, 255, 63}[r.Intn(4)]))
+		if nchar > 1 && r.Bool() {
+			v = append(v, ev.Lenenc(uint64(r.Intn(nchar)))...)
+			v = append(v, ev.Lenenc(uint64(8+r.Intn(300)))...)
+		}
+		tlv(2, v)
+	}
+	// COLUMN_NAME (4)
+	if r.Chance(3, 4) {
+		var v []byte
+		for _, c := range t.Cols {
+			n := c.Name
+			if len(n) > 255 {
+				n = n[:255]
+			}
+			v = append(v, byte(len(n)))
+			v = append(v, n...)
+		}
+		tlv(4, v)
+	}
+	// SET_STR_VALUE (5) and ENUM_STR_VALUE (6): per column the number of values, then each value
+	labels := []string{"red", "green", "blue", "", "a,b", "späť", "x", "0", "NULL", "very-long-label-of-more-than-thirty-two-bytes"}
+	for _, kind := range []byte{ev.TSet, ev.TEnum} {
+		var v []byte
+		for _, c := range t.Cols {
+			if realType(c) != kind {
+				continue
+			}
+			n := 2 + r.Intn(7)
+			if kind == ev.TEnum && c.Meta&0xff == 2 && r.Bool() {
+				n = 256 + r.Intn(50)
+			}
+			v = append(v, ev.Lenenc(uint64(n))...)
+			for i := 0; i < n; i++ {
+				l := labels[(i+r.Intn(3))%len(labels)]
+				v = append(v, ev.Lenenc(uint64(len(l)))...)
+				v = append(v, l...)
+			}
+		}
+		if len(v) > 0 {
+			if kind == ev.TSet {
+				tlv(5, v)
+			} else {
+				tlv(6, v)
+			}
+		}
+	}
+	// GEOMETRY_TYPE (7)
+	var gv []byte
+	for _, c := range t.Cols {
+		if c.Type == ev.TGeometry {
+			gv = append(gv, ev.Lenenc(uint64(r.Intn(8)))...)
+		}
+	}
+	if len(gv) > 0 {
+		tlv(7, gv)
+	}
+	// SIMPLE_PRIMARY_KEY (8)
+	if r.Bool() {
+		tlv(8, ev.Lenenc(0))
+	}
+	// COLUMN_VISIBILITY (12): one bit per column
+	if r.Chance(1, 3) {
+		b := make([]byte, (len(t.Cols)+7)/8)
+		for i := range b {
+			b[i] = 0xff
+		}
+		tlv(12, b)
+	}
+	return out
+}
